@@ -29,23 +29,26 @@ const qFactorWeightingKey = "q"
 func sortedMimes(accept string) (sorted []mime) {
 	for _, each := range strings.Split(accept, ",") {
 		typeAndQuality := strings.Split(strings.Trim(each, " "), ";")
-		if len(typeAndQuality) == 1 {
-			sorted = insertMime(sorted, mime{typeAndQuality[0], 1.0})
-		} else {
-			// take factor
-			qAndWeight := strings.Split(typeAndQuality[1], "=")
+		media := strings.Trim(typeAndQuality[0], " ")
+		quality, qualityOk := 1.0, true
+		// take factor ; it is not necessarily the first parameter
+		for _, param := range typeAndQuality[1:] {
+			qAndWeight := strings.Split(param, "=")
 			if len(qAndWeight) == 2 && strings.Trim(qAndWeight[0], " ") == qFactorWeightingKey {
-				f, err := strconv.ParseFloat(qAndWeight[1], 64)
+				f, err := strconv.ParseFloat(strings.Trim(qAndWeight[1], " "), 64)
 				if err != nil {
 					if trace {
 						traceLogger.Printf("unable to parse quality in %s, %v", each, err)
 					}
+					qualityOk = false
 				} else {
-					sorted = insertMime(sorted, mime{typeAndQuality[0], f})
+					quality = f
 				}
-			} else {
-				sorted = insertMime(sorted, mime{typeAndQuality[0], 1.0})
+				break
 			}
+		}
+		if qualityOk {
+			sorted = insertMime(sorted, mime{media, quality})
 		}
 	}
 	return
